@@ -6,7 +6,7 @@ CONSTANTS
   MaxFaults = 3
   MaxCrash = 0
   MaxEdits = 0
-  FaultKinds = {"wait"}
+  FaultKinds = {"wait", "res"}
   Sequential = TRUE
   Planned = TRUE
   MaxPlan = 36
